@@ -166,6 +166,87 @@ class FetcherEval:
                     out.append((okr, f"multigetnext: a GetNextRequest with one (OID, NULL) binding per requested OID, in the caller's order, is sent ({n} OID(s))", f"{req!r}"[:220]))
         return out
 
+    # ------------------------------------------------------------ multiget / multiset
+    def _request_ok(self, req: Any, cls_name: str, pairs: List[Tuple[Any, Any]], null_values: bool) -> bool:
+        cont = req.args[0] if isinstance(req, Instance) and req.args else None
+        binds = cont.attrs.get("varbinds") if isinstance(cont, Instance) else None
+        if not (isinstance(req, Instance) and req.cls.name == cls_name and isinstance(binds, list) and len(binds) == len(pairs)):
+            return False
+        for vb_, (o, v) in zip(binds, pairs):
+            if not isinstance(vb_, Instance):
+                return False
+            got_o = vb_.attrs.get("oid", vb_.args[0] if vb_.args else None)
+            got_v = vb_.attrs.get("value", vb_.args[1] if len(vb_.args) > 1 else None)
+            if got_o != o:
+                return False
+            if null_values:
+                if not (isinstance(got_v, Instance) and got_v.cls.name == "Null"):
+                    return False
+            elif got_v is not v:
+                return False
+        return "error_status" not in (cont.kwargs or {}) and "error_index" not in (cont.kwargs or {}) and len(cont.args) <= 2
+
+    def multiget(self) -> Optional[List[Verdict]]:
+        meth = self.ctx.r.method(self.client, "multiget")
+        if meth is None:
+            return None
+        out: List[Verdict] = []
+        a, b_, c = OidVal((1, 3, 10)), OidVal((1, 3, 20)), OidVal((1, 3, 30))
+        families = [("1 OID", [a]), ("2 OIDs", [a, b_]), ("3 OIDs", [a, b_, c]), ("3 OIDs in descending order", [c, b_, a]), ("the same OID twice", [a, a]), ("the same OID first and last", [a, b_, a]), ("the zero-length OID and another", [OidVal(()), a])]
+        for label, oids in families:
+            n = len(oids)
+            for m in (n - 1, n, n + 1):
+                resp = [self.binding(tuple(oids[k % n]), self.val(f"v{k}")) for k in range(m)]
+                requests: List[Any] = []
+                kind, val = self.call(self.evaluator(resp, requests), meth, [self.me(), list(oids)])
+                if kind == "uneval":
+                    self.uneval["multiget"] = str(val)
+                    return None
+                if m != n:
+                    out.append((kind == "raise" and self.exc_is(val, self.snmp_error), f"multiget: {label} requested, {m} binding(s) in the response -> refused with SnmpError", f"{kind}: {val!r}"[:200]))
+                    continue
+                ok = kind == "return" and isinstance(val, list) and len(val) == n and all(g is w.attrs["value"] for g, w in zip(val, resp))
+                out.append((ok, f"multiget: {label} requested, {n} binding(s) in the response -> the response's values, one per requested position, in order", f"{kind}: {val!r}"[:220]))
+                okr = len(requests) == 1 and self._request_ok(requests[0], "GetRequest", [(o, None) for o in oids], True)
+                out.append((okr, f"multiget: {label}: one GetRequest with one (OID, NULL) binding per requested position, in the caller's order, is sent", f"{requests!r}"[:220]))
+        return out
+
+    def multiset(self) -> Optional[List[Verdict]]:
+        meth = self.ctx.r.method(self.client, "multiset")
+        if meth is None:
+            return None
+        out: List[Verdict] = []
+        all_oids = [OidVal((1, 3, 30)), OidVal((1, 3, 10)), OidVal((1, 3, 20))]  # insertion order is not sorted order
+        for n in (1, 2, 3):
+            oids = all_oids[:n]
+            values = [self.val(f"set{k}") for k in range(n)]
+            mapping = dict(zip(oids, values))
+            for m in (n - 1, n, n + 1):
+                extra = [OidVal((1, 3, 99))]
+                resp = [self.binding(tuple((oids + extra)[k]), self.val(f"confirmed{k}")) for k in range(m)]
+                requests: List[Any] = []
+                kind, val = self.call(self.evaluator(resp, requests), meth, [self.me(), dict(mapping)])
+                if kind == "uneval":
+                    self.uneval["multiset"] = str(val)
+                    return None
+                if m != n:
+                    out.append((kind == "raise" and self.exc_is(val, self.snmp_error), f"multiset: {n} requested, {m} binding(s) in the response -> refused with SnmpError", f"{kind}: {val!r}"[:200]))
+                    continue
+                ok = kind == "return" and isinstance(val, dict) and list(val.keys()) == [w.attrs["oid"] for w in resp] and all(val[w.attrs["oid"]] is w.attrs["value"] for w in resp)
+                out.append((ok, f"multiset: {n} requested, {n} binding(s) in the response -> what the agent confirmed, OID by OID", f"{kind}: {val!r}"[:220]))
+                okr = len(requests) == 1 and self._request_ok(requests[0], "SetRequest", list(zip(oids, values)), False)
+                out.append((okr, f"multiset: one SetRequest carrying exactly the {n} (OID, typed value) pair(s) supplied, in the caller's order, is sent", f"{requests!r}"[:220]))
+            # a value without SNMP type information never reaches the wire
+            untyped = dict(mapping)
+            untyped[oids[-1]] = 5
+            requests = []
+            kind, val = self.call(self.evaluator([], requests), meth, [self.me(), untyped])
+            if kind == "uneval":
+                self.uneval["multiset"] = str(val)
+                return None
+            out.append((kind == "raise" and not requests, f"multiset: a value that is not an x690 typed value ({n} pair(s)) -> refused before anything is sent", f"{kind}: {val!r}, {len(requests)} request(s)"[:200]))
+        return out
+
     def multigetnext_keeps_positions(self) -> Optional[bool]:
         """multigetnext([oid at the end of the view, oid with a successor]): is the second OID's successor reported?"""
         meth = self.ctx.r.method(self.client, "multigetnext")
@@ -310,7 +391,7 @@ def fetcher_eval(ctx: Ctx) -> FetcherEval:
     cached = getattr(ctx, "_fetcher_eval", None)
     if cached is None:
         cached = FetcherEval(ctx)
-        cached.results = {"multigetnext": cached.multigetnext(), "bulk_fetcher": cached.bulk_fetcher(), "bulkget": cached.bulkget()}  # type: ignore[attr-defined]
+        cached.results = {"multigetnext": cached.multigetnext(), "bulk_fetcher": cached.bulk_fetcher(), "bulkget": cached.bulkget(), "multiget": cached.multiget(), "multiset": cached.multiset()}  # type: ignore[attr-defined]
         ctx._fetcher_eval = cached  # type: ignore[attr-defined]
     return cached
 
@@ -326,6 +407,8 @@ def emit(ctx: Ctx, rep: Any, rule: str, which: List[str]) -> set:
         "multigetnext": lambda: ctx.r.method(fe.client, "multigetnext").site(),
         "bulk_fetcher": lambda: (ctx.r.method(fe.client, "_bulkwalk_fetcher") or ctx.send_method()).site(),
         "bulkget": lambda: ctx.r.method(fe.client, "bulkget").site(),
+        "multiget": lambda: ctx.r.method(fe.client, "multiget").site(),
+        "multiset": lambda: ctx.r.method(fe.client, "multiset").site(),
     }
     decided = set()
     for name in which:
